@@ -43,6 +43,9 @@ ASSUMPTIONS = [
     "of Circuit.path must have exactly the fingerprint Tor reported",
     "IPv6 literals may be kept with or without brackets",
     "a stream whose circuit died and that Tor has not yet reported may still reference the dead circuit object",
+    "Tor may report circuit 0 for an attached, not yet connected stream on a REMAP line (a controller re-attached it: "
+    "no DETACHED is sent); from then on the stream is on no circuit. A change of circuit with no line in between is "
+    "not generated",
 ]
 TRUSTED_BASE = ["vf.faketor.torsim.TorSim (model, generator and ground truth)", "vf.faketor.core.FakeTor / Link",
                 "vf.refs.reply encoder"]
@@ -65,17 +68,17 @@ FLOORS = {
               "snapshot_entries": 800, "circuit_id_reused": 400, "stream_id_reused": 550,
               "circuit_died_under_streams": 200, "detached_after_circuit_died": 70,
               "reattached_to_other_circuit": 70, "hop_not_in_consensus": 700, "hop_outside_consensus_named_like_consensus_relay": 350, "cannibalized": 35,
-              "closed_after_failed_delivered": 150, "stream_first_seen_in_mid_life": 150,
+              "closed_after_failed_delivered": 150, "stream_first_seen_in_mid_life": 150, "unattached_by_remap_0": 60,
               "reach:txtorcon.stream:Stream.update": 4200, "reach:txtorcon.circuit:Circuit.update": 4200,
               "reach:txtorcon.torstate:TorState.circuit_destroy": 700,
               "reach:txtorcon.torstate:TorState._stream_status": 350},
     "thorough": {"evaluations": 10000, "oracle_evaluations": 250000, "events_delivered": 250000,
                  "circuits_compared": 500000, "streams_compared": 500000, "attachments_compared": 150000,
                  "snapshot_entries": 30000, "circuit_died_under_streams": 8000, "circuit_id_reused": 15000,
-                 "reattached_to_other_circuit": 2500, "hop_outside_consensus_named_like_consensus_relay": 8000},
+                 "reattached_to_other_circuit": 2500, "hop_outside_consensus_named_like_consensus_relay": 8000, "unattached_by_remap_0": 1500},
 }
 
-SIM_STATS = ["failed_closed_pairs", "stream_first_seen_in_mid_life", "circuit_id_reused", "stream_id_reused", "circuit_died_under_streams",
+SIM_STATS = ["unattached_by_remap_0", "failed_closed_pairs", "stream_first_seen_in_mid_life", "circuit_id_reused", "stream_id_reused", "circuit_died_under_streams",
              "detached_after_circuit_died", "ended_after_circuit_died", "reattached_after_detach",
              "reattached_to_other_circuit", "hop_not_in_consensus",
              "hop_outside_consensus_named_like_consensus_relay", "cannibalized",
